@@ -317,6 +317,7 @@ def build(ck):
         S.inputs['hits_v'] = hits(v)
         S.inputs['hits_outside'] = hits(-1)
         if ug is not None:
+            S.assume(z3.And(ug['member'](v), ug['member'](v - to_z3(cov.length))))     # instances of the unique contract
             S.assume(IX.sum_support(U.elems, C.elems, U.length, cov.length, v, ug['Pos'](v), ug['Pos'](v - to_z3(cov.length))))
         # where a truncating jnp.unique(size=N) shows: every pixel hit and one sample out of the map (N + 1 distinct values)
         hint = z3.And(*[n == 1 for n in ns], v == 0, hits(0) == 2, hits(-1) == 1)
